@@ -190,6 +190,8 @@ class tN2kDeviceList : public tNMEA2000::tMsgHandler {
                                    unsigned char _CertificationLevel=0xff 
                                   ) {
           ProdI.Set(_ModelSerialCode,_ProductCode,_ModelID,_SwCode,_ModelVersion,_LoadEquivalency,_N2kVersion,_CertificationLevel);
+          // Keep what the device reported: Set() replaces "not available" by the defaults meant for own devices.
+          ProdI.N2kVersion=_N2kVersion; ProdI.CertificationLevel=_CertificationLevel; ProdI.LoadEquivalency=_LoadEquivalency;
           ProdILoaded=true;
         }
 
